@@ -129,6 +129,9 @@ type c16ACase struct {
 	URLPath  string     `json:"url_path,omitempty"` // pull, plugin-install: path the archive is served at
 	Untar    bool       `json:"untar,omitempty"`    // pull
 	UntarDir string     `json:"untar_dir,omitempty"`
+	// ViaRepo (pull): the chart is named as myrepo/c16chart; repositories.yaml lists myrepo and its cached index lists
+	// the chart with the absolute URL <server><URLPath> (a hostile or careless index)
+	ViaRepo bool `json:"via_repo,omitempty"`
 }
 
 var c16DriveAbs = regexp.MustCompile(`^[A-Za-z]:[/\\]`)
@@ -449,7 +452,17 @@ func c16JudgeA(tb vt.TB, c *c16ACase) c16Verdict {
 		if c.Untar {
 			lbl["pull-untar"] = true
 		}
-		err = c16Call(func() error { _, e := p.Run(srv.URL + c.URLPath); return e })
+		ref := srv.URL + c.URLPath
+		if c.ViaRepo {
+			lbl["pull-by-repository-name"] = true
+			_ = os.MkdirAll(st.RepositoryCache, 0o755)
+			_ = os.WriteFile(st.RepositoryConfig, []byte("apiVersion: \"\"\ngenerated: \"0001-01-01T00:00:00Z\"\nrepositories:\n- name: myrepo\n  url: "+srv.URL+"\n"), 0o644)
+			idx, _ := json.Marshal(map[string]interface{}{"apiVersion": "v1", "generated": "2020-01-01T00:00:00Z", "entries": map[string]interface{}{
+				"c16chart": []interface{}{map[string]interface{}{"apiVersion": "v2", "name": "c16chart", "version": "1.0.0", "urls": []string{srv.URL + c.URLPath}}}}})
+			_ = os.WriteFile(filepath.Join(st.RepositoryCache, "myrepo-index.yaml"), idx, 0o644)
+			ref = "myrepo/c16chart"
+		}
+		err = c16Call(func() error { _, e := p.Run(ref); return e })
 		restore()
 	default:
 		tb.Fatalf("c16: unknown target %q", c.Target)
@@ -777,6 +790,7 @@ func c16GenA(t *rapid.T) *c16ACase {
 	if c.Target == "pull" {
 		c.URLPath = rapid.SampledFrom(c16URLs).Draw(t, "url")
 		c.Untar = rapid.IntRange(0, 3).Draw(t, "untar") > 0
+		c.ViaRepo = rapid.IntRange(0, 2).Draw(t, "viaRepo") == 0
 		c.UntarDir = rapid.SampledFrom([]string{".", ".", "sub", "$DEST/abs", "", "..", "$OUT"}).Draw(t, "untarDir")
 		if c.UntarDir == ".." || c.UntarDir == "$OUT" {
 			// the caller chose a directory outside dest: that directory is then the destination; not a case for this check
@@ -825,6 +839,9 @@ type c16BCase struct {
 	Tail       string      `json:"tail,omitempty"` // huge | huge-pax | huge-sparse | small | meta
 	TailSize   int64       `json:"tail_size,omitempty"`
 	Compressed bool        `json:"compressed,omitempty"`
+	// BOMContent: every file member's content starts with the UTF-8 byte order mark (which the loader strips from the
+	// data it keeps; the limits count what is decompressed)
+	BOMContent bool `json:"bom_content,omitempty"`
 }
 
 const (
@@ -1024,9 +1041,13 @@ func c16JudgeB(tb vt.TB, c *c16BCase) c16Verdict {
 				if n > 512 {
 					n = 512
 				}
+				first := curLeft == cur.stored
 				curLeft -= n
 				if cur.hdr[156] == '0' && bytes.HasPrefix(cur.hdr, []byte("c/Chart.yaml")) {
 					return []byte(c16BChartYAML)
+				}
+				if c.BOMContent && first && n >= 3 {
+					return append([]byte("\xef\xbb\xbf"), filler[:n-3]...)
 				}
 				return filler[:n]
 			}
@@ -1199,11 +1220,12 @@ func c16GenB(t *rapid.T) *c16BCase {
 		}
 	}
 	c.Compressed = rapid.IntRange(0, 5).Draw(t, "compressed") == 0
+	c.BOMContent = rapid.IntRange(0, 3).Draw(t, "bomContent") == 0
 	return c
 }
 
 func TestC16B(t *testing.T) {
-	evid.Extra("rule", "C16B: MaxDecompressedFileSize (64..4096) and MaxDecompressedChartSize (1..8x, sometimes off by a few bytes) are lowered per case and restored; the archive is a gzip stream generated lazily member by member (regular, old-regular, contiguous, unknown type, base-256 size, PAX size= record, old-GNU sparse with a hole, directories, symlinks, global PAX headers; sizes at, one below and one above either limit) followed by an optional tail: one member declaring 8 GiB (base-256, PAX or sparse) or an endless run of small members, generation stopping 48 KiB past the model's bound. Oracle (independent model over the planned members): the first file member whose size exceeds the per-file limit or whose running sum exceeds the total limit makes the archive over-limit: LoadArchiveFiles/LoadArchive/Expand must return an error, and (stored-block gzip, so compressed offset = decompressed offset) the number of decompressed bytes pulled may not exceed the end of that member's header + what was left of the limit + 8 KiB read-ahead. Non-trivial = over-limit case that was rejected with the size error; distinct by the JSON of the case. Under-limit archives are the control class (labels under-limit-accepted / total-equals-limit-rejected).")
+	evid.Extra("rule", "C16B: MaxDecompressedFileSize (64..4096) and MaxDecompressedChartSize (1..8x, sometimes off by a few bytes) are lowered per case and restored; the archive is a gzip stream generated lazily member by member (regular, old-regular, contiguous, unknown type, base-256 size, PAX size= record, old-GNU sparse with a hole, directories, symlinks, global PAX headers; sizes at, one below and one above either limit; in a quarter of the cases every member's content starts with a UTF-8 byte order mark) followed by an optional tail: one member declaring 8 GiB (base-256, PAX or sparse) or an endless run of small members, generation stopping 48 KiB past the model's bound. Oracle (independent model over the planned members): the first file member whose size exceeds the per-file limit or whose running sum exceeds the total limit makes the archive over-limit: LoadArchiveFiles/LoadArchive/Expand must return an error, and (stored-block gzip, so compressed offset = decompressed offset) the number of decompressed bytes pulled may not exceed the end of that member's header + what was left of the limit + 8 KiB read-ahead. Non-trivial = over-limit case that was rejected with the size error; distinct by the JSON of the case. Under-limit archives are the control class (labels under-limit-accepted / total-equals-limit-rejected).")
 	evid.Extra("assumptions", []string{
 		"the limit counts the decompressed content of file members, as documented on MaxDecompressedChartSize ('the decompressed size of all the files'); headers and members without content are not counted",
 		"read-ahead of up to 8 KiB beyond the bound is tolerated (bufio 4 KiB + one 512-byte chunk + member headers; every chunk ends in a sync flush, so inflate does not read ahead)",
